@@ -1,0 +1,63 @@
+//go:build verif
+
+// Contracts for property C12 (printed values read back), package rel: the structural emitters.
+// Output is the ghost string `wout` (80_codec.spec); pfx/offRepr/sprintf1 are in 80_codec.smt2.
+package rel
+
+//@ globalfact byteReprs len(byteReprs) == 256
+//@ globalfact reprEscapes len(reprEscapes) == 32
+
+// seqOpen(w0, off, open): w0, then `off\` exactly when off != 0, then the opening bracket
+//@ spec seqOpen(w0, off, open) = sconcat(off != 0 ? sconcat(w0, offRepr(off)) : w0, open)
+
+//@ func writeSep(w, i, sep)
+//@   tags C12, C10
+//@   assigns fresh-only
+//@   modifies wout
+//@   ensures wout == (i > 0 ? sconcat(old(wout), sep) : old(wout))
+
+//@ func reprOffset(offset, w)
+//@   tags C12, C10
+//@   assigns fresh-only
+//@   modifies wout
+//@   ensures[C12] wout == (offset != 0 ? sconcat(old(wout), offRepr(offset)) : old(wout))
+
+//@ func reprStr(s, w)
+//@   tags C12, C10
+//@   assigns fresh-only
+//@   modifies wout
+//@   ensures pfx(old(wout), wout)
+
+//@ func reprEscape(s, delim, w)
+//@   tags C12, C10
+//@   assigns fresh-only
+//@   modifies wout
+//@   ensures[C12] open: pfx(sconcat(old(wout), sprintf1("%c", mkval(byte, delim))), wout)
+//@   loop 0 invariant pfx(sconcat(old(wout), sprintf1("%c", mkval(byte, delim))), wout)
+
+// Array.Format emits `offset\` exactly when offset != 0, then "[".
+//@ func (Array).Format(a; f, verb)
+//@   tags C12, C10
+//@   assigns fresh-only
+//@   modifies wout
+//@   ensures[C12] offset: pfx(seqOpen(old(wout), a.offset, "["), wout)
+//@   loop 0 invariant pfx(seqOpen(old(wout), a.offset, "["), wout)
+
+// Bytes.Format must emit the offset too (it does not: finding).
+//@ func (Bytes).Format(b; f, verb)
+//@   tags C12, C10
+//@   assigns fresh-only
+//@   modifies wout
+//@   ensures[C12] offset: verb == 'v' ==> pfx(seqOpen(old(wout), b.offset, "<<"), wout)
+//@   loop 0 invariant pfx(sconcat(old(wout), "<<"), wout)
+
+// String.Format (repr form): offset prefix, then the escaped text.
+//@ func reprString(str, w)
+//@   tags C12, C10
+//@   assigns fresh-only
+//@   modifies wout
+//@   ensures[C12] offset: pfx(str.offset != 0 ? sconcat(old(wout), offRepr(str.offset)) : old(wout), wout)
+// string(str.s) turns every hole (negative rune) into U+FFFD, after which it is printed like an ordinary
+// character: the printed text cannot distinguish a hole from U+FFFD. Stated as a clause over the input
+// (it cannot be a precondition: the strings are user-controlled, e.g. "abc" without (@:1, @char:98)).
+//@   ensures[C12] holes: forall k in 0..len(str.s) :: str.s[k] >= 0
